@@ -374,21 +374,25 @@ def roundtrip(spec: dict, mode: dict) -> tuple[str | None, str]:
     except Exception as e:   # the mapping API of Element / Attribute on valid arguments
         return f'building the graph raised {type(e).__name__}: {str(e)[:200]}', 'build'
     buf = io.BytesIO()
+    # the format name / version arguments of the exporters (defaults 'dmx', 1 when the mode does not give them)
+    fmt_kw = {k: mode[k] for k in ('fmt_name', 'fmt_ver') if k in mode}
     try:
         with time_limit():
             if mode['fmt'] == 'binary':
-                elems[0].export_binary(buf, version=mode['version'], unicode=mode['unicode'])
+                elems[0].export_binary(buf, version=mode['version'], unicode=mode['unicode'], **fmt_kw)
             else:
-                elems[0].export_kv2(buf, flat=mode['flat'], cull_uuid=mode['cull_uuid'], unicode=mode['unicode'])
+                elems[0].export_kv2(buf, flat=mode['flat'], cull_uuid=mode['cull_uuid'], unicode=mode['unicode'], **fmt_kw)
     except Exception as e:   # the data is expressible by construction: an export error loses the graph
         return f'export raised {type(e).__name__}: {e}', 'export'
     data = buf.getvalue()
     try:
         with time_limit():
-            got, _, _ = dmx.Element.parse(io.BytesIO(data), unicode=(mode['unicode'] == 'silent'))
+            got, got_name, got_ver = dmx.Element.parse(io.BytesIO(data), unicode=(mode['unicode'] == 'silent'))
             after = canon(got)
     except Exception as e:
         return f'parse raised {type(e).__name__}: {str(e)[:200]}', 'parse'
+    if (got_name, got_ver) != (fmt_kw.get('fmt_name', 'dmx'), fmt_kw.get('fmt_ver', 1)):
+        return f'format name / version {fmt_kw or ("dmx", 1)} came back as {(got_name, got_ver)}', 'header'
     d = diff(before, after, text=(mode['fmt'] == 'kv2'),
              uuid_all=not (mode['fmt'] == 'kv2' and mode['cull_uuid'] and not mode['flat']))
     if d is not None:
@@ -401,9 +405,9 @@ def roundtrip(spec: dict, mode: dict) -> tuple[str | None, str]:
                 return 'the export changed the graph it was given', 'repeat'
             buf2 = io.BytesIO()
             if mode['fmt'] == 'binary':
-                elems[0].export_binary(buf2, version=mode['version'], unicode=mode['unicode'])
+                elems[0].export_binary(buf2, version=mode['version'], unicode=mode['unicode'], **fmt_kw)
             else:
-                elems[0].export_kv2(buf2, flat=mode['flat'], cull_uuid=mode['cull_uuid'], unicode=mode['unicode'])
+                elems[0].export_kv2(buf2, flat=mode['flat'], cull_uuid=mode['cull_uuid'], unicode=mode['unicode'], **fmt_kw)
             if buf2.getvalue() != data:
                 return 'a second export of the same graph gives other bytes', 'repeat'
             got2, _, _ = dmx.Element.parse(io.BytesIO(data), unicode=(mode['unicode'] == 'silent'))
